@@ -23,12 +23,12 @@ func init() {
 }
 
 type c17Op struct {
-	Kind   string `json:"op"` // acquire, try, multi
-	Queues []int  `json:"queues"`
-	HoldUS int    `json:"hold_us"`
-	Cancel string `json:"cancel"` // none, deadline, canceller
-	AfterUS int   `json:"cancel_after_us"`
-	Meta   reqmeta.Data `json:"meta"`
+	Kind    string       `json:"op"` // acquire, try, multi
+	Queues  []int        `json:"queues"`
+	HoldUS  int          `json:"hold_us"`
+	Cancel  string       `json:"cancel"` // none, deadline, canceller
+	AfterUS int          `json:"cancel_after_us"`
+	Meta    reqmeta.Data `json:"meta"`
 }
 
 func runC17(e *core.Env) {
